@@ -63,6 +63,8 @@ fn concretise(verb: &str, arg: &str, tk: Option<&str>, f: &Files, big: bool) -> 
             "ok_nocollect" => j(json!({"collect":false,"files":[file]})),
             "ok_onepass" => j(json!({"collect":"one_pass_streams","files":[file]})),
             "ok_plugins" => j(json!({"files":[file],"plugins":[{"name":"FileTransfer"}]})),
+            "ok_plugins_dup" => j(json!({"files":[file],"plugins":[{"name":"Rewrite","rewrites":[]},{"name":"FileTransfer"},
+                {"name":"Rewrite","rewrites":[]},{"name":"FileTransfer","keepFLDA":true}]})),
             "ok_zip" => j(json!({"files":[f.realzip]})),
             "zip_glob_all" => j(json!({"files":[format!("{}!/**/*.dlt", f.realzip)]})),
             "zip_glob_some" => j(json!({"files":[format!("{}!/logs/sub/*.dlt", f.realzip)]})),
@@ -155,6 +157,7 @@ fn concretise(verb: &str, arg: &str, tk: Option<&str>, f: &Files, big: bool) -> 
             "noname" => j(json!({"cmd":"save"})),
             "noplugin" => j(json!({"cmd":"save","name":"nope"})),
             "ft_cmd" => j(json!({"cmd":"frob","name":"FileTransfer","params":{"a":1}})),
+            "rw_cmd" => j(json!({"cmd":"frob","name":"Rewrite"})),
             _ => panic!("plugin arg {}", arg),
         }),
         "fs" => with("fs", match arg {
@@ -408,30 +411,70 @@ fn run_case(port: u16, case: usize, cs: &CaseSpec, files: &Files, rng: &mut Rng)
 
 // ------------------------------------------------------------------------------------------------ histories
 fn parse_scn(v: &Value) -> Vec<Step> {
-    v.as_array()
+    let mut steps: Vec<Step> = v
+        .as_array()
         .expect("scenario = array of letters")
         .iter()
         .map(|l| {
             let p: Vec<&str> = l.as_str().unwrap().split('|').collect();
             Step { verb: p[0].into(), arg: p[1].into(), tgt: p[2].into(), exp: p[3].into(), pause_ms: 0 }
         })
-        .collect()
+        .collect();
+    // pacing: after a `resume` give the server loop time to take over (and, in one-pass mode, release) messages
+    for i in 1..steps.len() {
+        if steps[i - 1].verb == "resume" {
+            steps[i].pause_ms = 150;
+        }
+    }
+    steps
 }
 
-const OPEN_OK: [&str; 12] = ["ok", "ok_sort", "ok_nocollect", "ok_onepass", "ok_plugins", "ok_zip", "zip_glob_all", "zip_glob_some", "zip_glob_none", "zip_nodlt", "zip_nodlt_glob", "fakezip"];
+const OPEN_OK: [&str; 13] = ["ok_plugins_dup", "ok", "ok_sort", "ok_nocollect", "ok_onepass", "ok_plugins", "ok_zip", "zip_glob_all", "zip_glob_some", "zip_glob_none", "zip_nodlt", "zip_nodlt_glob", "fakezip"];
 const OPEN_BAD: [&str; 13] = ["nonarchive_bang", "missingzip_bang", "noarg", "badjson", "nofiles", "emptyfiles", "fileswrongtype", "filesnonstring", "missingfile", "nodlt", "badcollect", "pluginswrongtype", "pluginnotobj"];
 const STREAM_OK: [&str; 6] = ["ok", "ok_filt", "ok_text", "ok_onepass", "ok_defaults", "ok_emptywin"];
 const STREAM_BAD: [&str; 6] = ["noarg", "badjson", "badwindow", "windowwrongtype", "filterswrongtype", "badfilter"];
 const CHANGE: [&str; 6] = ["ok", "ok_empty", "ok_garbage", "ok_beyond", "noarg", "nocomma"];
 const BSEARCH: [&str; 8] = ["time", "time_garbage", "index_found", "index_garbage", "index_missing", "badkey", "nokey", "noarg"];
 const SEARCH: [&str; 9] = ["ok", "ok_defaults", "ok_nomatch", "noarg", "badjson", "startwrongtype", "maxwrongtype", "filterswrongtype", "badfilter"];
-const PLUGIN: [&str; 7] = ["noarg", "badjson", "notobject", "nocmd", "noname", "noplugin", "ft_cmd"];
+const PLUGIN: [&str; 8] = ["rw_cmd", "noarg", "badjson", "notobject", "nocmd", "noname", "noplugin", "ft_cmd"];
 const FS: [&str; 16] = ["noarg", "badjson", "notobject", "nocmd", "nopath", "unknowncmd", "stat_ok", "readdir_ok", "stat_missing", "readdir_missing", "arch_nonexist", "arch_unsupported", "fakezip_readdir", "fakezip_stat", "zip_readdir", "zip_stat"];
 const UNKNOWN: [&str; 5] = ["frobnicate", "empty", "uppercase", "stream_window", "leadingspace"];
 const PLAIN: [&str; 2] = ["", "junk"];
 
 /// `multi`: sessions with several live streams - window changes on streams that are not the newest one (their id is
 /// renewed in place) followed by commands addressing every live id
+/// `onepass`: sessions in collect mode one_pass_streams (or, rarely, the other modes): pause / resume between one-pass and
+/// normal streams and queries, so that streams are requested after messages were released
+fn random_onepass_history(rng: &mut Rng, len: usize) -> Vec<Step> {
+    let mut v = vec![step("open", *rng.pick(&["ok_onepass", "ok_onepass", "ok_onepass", "ok", "ok_nocollect"]), "")];
+    for _ in 0..len {
+        let r = rng.below(100);
+        let mut s = if r < 22 {
+            step("resume", "", "")
+        } else if r < 40 {
+            step("pause", "", "")
+        } else if r < 70 {
+            step(if rng.chance(3, 4) { "stream" } else { "query" }, if rng.chance(4, 5) { "ok_onepass" } else { "ok_filt" }, "")
+        } else if r < 80 {
+            step("stop", "", &format!("recent:{}", rng.below(3)))
+        } else if r < 90 {
+            let verb = *rng.pick(&TARGET_VERBS[1..]);
+            let arg = match verb { "stream_change_window" => "ok", "stream_binary_search" => "time", _ => "ok" };
+            step(verb, arg, &format!("recent:{}", rng.below(3)))
+        } else if r < 95 {
+            step("fs", "stat_ok", "")
+        } else {
+            v.push(step("close", "", ""));
+            step("open", *rng.pick(&["ok_onepass", "ok_onepass", "ok"]), "")
+        };
+        if v.last().map(|p| p.verb == "resume").unwrap_or(false) {
+            s.pause_ms = [30, 100, 250][rng.below(3) as usize];
+        }
+        v.push(s);
+    }
+    v
+}
+
 fn random_history(rng: &mut Rng, len: usize, pipelined: bool, multi: bool) -> Vec<Step> {
     let mut v = Vec::new();
     let mut created = 0usize; // streams requested so far (only to pick plausible targets; may be wrong - that is fine)
@@ -538,6 +581,14 @@ fn scripted() -> Vec<CaseSpec> {
         mk(false, "awaited", vec![step("open", "nonarchive_bang", ""), step("sleep", "400", ""), step("unknown", "frobnicate", ""), step("sleep", "300", ""), step("fs", "stat_ok", ""), step("pause", "", ""), step("stream", "ok", ""), step("resume", "", ""), step("sleep", "200", ""), step("stop", "", "h1"), step("close", "", ""), step("open", "ok", ""), step("close", "", "")]),
         mk(false, "awaited", vec![step("open", "missingzip_bang", ""), step("sleep", "400", ""), step("unknown", "frobnicate", ""), step("sleep", "300", ""), step("fs", "stat_ok", ""), step("pause", "", ""), step("stream", "ok", ""), step("resume", "", ""), step("sleep", "200", ""), step("stop", "", "h1"), step("close", "", ""), step("open", "ok", ""), step("close", "", "")]),
         mk(false, "pipelined", vec![step("open", "zip_glob_none", ""), step("pause", "", ""), step("stream", "ok_filt", ""), step("close", "", ""), step("open", "zip_nodlt", ""), step("sleep", "300", ""), step("close", "", ""), step("open", "ok", ""), step("close", "", "")]),
+        // one-pass mode: a second one-pass stream requested while paused, after messages were released (must be refused or work -
+        // in any case every later command is answered), for stream and query, and the same under the other collect modes
+        mk(false, "awaited", vec![step("open", "ok_onepass", ""), step("stream", "ok_onepass", ""), step("resume", "", ""), step("wait", "", ""), step("pause", "", ""), step("stream", "ok_onepass", ""), step("resume", "", ""), step("sleep", "300", ""), step("fs", "stat_ok", ""), step("pause", "", ""), step("query", "ok_onepass", ""), step("resume", "", ""), step("sleep", "300", ""), step("stop", "", "h1"), step("close", "", ""), step("open", "ok", ""), step("close", "", "")]),
+        mk(false, "awaited", vec![step("open", "ok_onepass", ""), step("resume", "", ""), step("wait", "", ""), step("pause", "", ""), step("query", "ok_onepass", ""), step("stream", "ok_onepass", ""), step("resume", "", ""), step("sleep", "300", ""), step("fs", "stat_ok", ""), step("close", "", ""), step("open", "ok_onepass", ""), step("stream", "ok_onepass", ""), step("close", "", "")]),
+        mk(false, "awaited", vec![step("open", "ok_nocollect", ""), step("stream", "ok_onepass", ""), step("pause", "", ""), step("query", "ok_filt", ""), step("resume", "", ""), step("sleep", "200", ""), step("close", "", ""), step("open", "ok", ""), step("stream", "ok_onepass", ""), step("resume", "", ""), step("wait", "", ""), step("pause", "", ""), step("stream", "ok_onepass", ""), step("query", "ok_onepass", ""), step("resume", "", ""), step("sleep", "200", ""), step("stop", "", "h2"), step("close", "", "")]),
+        // plugins configured twice under the same name: one plugin_cmd = one reply (a stray frame would answer the next command)
+        mk(false, "awaited", vec![step("open", "ok_plugins_dup", ""), step("plugin_cmd", "ft_cmd", ""), step("fs", "stat_ok", ""), step("plugin_cmd", "rw_cmd", ""), step("pause", "", ""), step("plugin_cmd", "ft_cmd", ""), step("plugin_cmd", "noplugin", ""), step("resume", "", ""), step("plugin_cmd", "rw_cmd", ""), step("close", "", ""), step("plugin_cmd", "ft_cmd", ""), step("open", "ok_plugins", ""), step("plugin_cmd", "rw_cmd", ""), step("plugin_cmd", "ft_cmd", ""), step("close", "", "")]),
+        mk(false, "pipelined", vec![step("open", "ok_plugins_dup", ""), step("plugin_cmd", "ft_cmd", ""), step("plugin_cmd", "rw_cmd", ""), step("stream", "ok", ""), step("plugin_cmd", "ft_cmd", ""), step("stop", "", "none"), step("plugin_cmd", "rw_cmd", ""), step("close", "", "")]),
         // close while parsing (big file, throttled parser), then a new open must succeed; also pipelined
         mk(true, "awaited", vec![step("open", "ok", ""), step("stream", "ok_filt", ""), step("close", "", ""), step("open", "ok", ""), step("stream", "ok", ""), step("close", "", ""), step("open", "ok_sort", ""), step("close", "", ""), step("open", "ok_zip", ""), step("close", "", ""), step("open", "ok", "")]),
         mk(true, "pipelined", vec![step("open", "ok", ""), step("stream", "ok_filt", ""), step("close", "", ""), step("open", "ok_sort", ""), step("query", "ok_filt", ""), step("close", "", ""), step("open", "ok_onepass", ""), step("close", "", ""), step("open", "ok_zip", ""), step("close", "", ""), step("open", "ok", ""), step("close", "", "")]),
@@ -661,7 +712,7 @@ fn main() {
     for k in 0..n_random {
         let pipelined = k % 2 == 1;
         let len = rng.range(20, long_max as u64) as usize;
-        cases.push(CaseSpec { src: "random", mode: if pipelined { "pipelined" } else { "awaited" }, big: rng.chance(1, 2), huge: false, steps: random_history(&mut rng, len, pipelined, k % 3 == 2) });
+        cases.push(CaseSpec { src: "random", mode: if pipelined { "pipelined" } else { "awaited" }, big: rng.chance(1, 2), huge: false, steps: if k % 5 == 4 { random_onepass_history(&mut rng, std::cmp::min(len, 60)) } else { random_history(&mut rng, len, pipelined, k % 3 == 2) } });
     }
     let mut rng_offset = 0usize; // keeps the per-case random choices of a replayed case identical to the original run
     if let Some(only) = a.get("--only-case") {
